@@ -688,6 +688,62 @@ def read_eager(data, **kw):
         return None, ex
 
 
+class ShortReadintoStream(io.RawIOBase):
+    """A seekable caller-supplied stream whose read(n) is complete but whose readinto delivers at most `limit` bytes
+    per call - allowed by the io contract; the reader has to loop until the buffer is full or the stream ends."""
+
+    def __init__(self, data, limit):
+        super().__init__()
+        self._data, self._pos, self._limit = bytes(data), 0, limit
+
+    def readable(self):
+        return True
+
+    def seekable(self):
+        return True
+
+    def tell(self):
+        return self._pos
+
+    def seek(self, offset, whence=io.SEEK_SET):
+        base = {io.SEEK_SET: 0, io.SEEK_CUR: self._pos, io.SEEK_END: len(self._data)}[whence]
+        self._pos = base + offset
+        return self._pos
+
+    def read(self, n=-1):
+        if n is None or n < 0:
+            n = max(0, len(self._data) - self._pos)
+        out = self._data[self._pos:self._pos + n]
+        self._pos += len(out)
+        return out
+
+    def readinto(self, b):
+        n = min(len(b), self._limit, max(0, len(self._data) - self._pos))
+        memoryview(b).cast("B")[:n] = self._data[self._pos:self._pos + n]
+        self._pos += n
+        return n
+
+
+def read_eager_from(make_stream, **kw):
+    """TdmsFile.read on the stream make_stream() returns -> (tokens or None, exception or None)"""
+    from nptdms import TdmsFile
+    import warnings
+    try:
+        with warnings.catch_warnings():
+            warnings.simplefilter("ignore")
+            st = make_stream()
+            try:
+                f = TdmsFile.read(st, raw_timestamps=True, **kw)
+                return observe_file(f), None
+            finally:
+                try:
+                    st.close()
+                except Exception:
+                    pass
+    except Exception as ex:      # noqa: BLE001
+        return None, ex
+
+
 def silence_logs():
     import logging
     logging.getLogger("nptdms").setLevel(logging.CRITICAL)
